@@ -130,6 +130,22 @@ func main() {
 }
 
 func printObligations(r *Run) {
+	// instance floors count as obligations here too (a rule that lost an instance is not silent)
+	counts := map[string]int{}
+	for _, o := range r.Obs {
+		counts[o.Rule]++
+	}
+	var rules []string
+	for rule := range r.Floors {
+		rules = append(rules, rule)
+	}
+	sort.Strings(rules)
+	for _, rule := range rules {
+		if counts[rule] < r.Floors[rule] {
+			r.Obs = append(r.Obs, &Obligation{Prop: r.Prop, Rule: rule, Key: fmt.Sprintf("%s/%s@instance-floor", r.Prop, rule), Status: Undecided,
+				Detail: fmt.Sprintf("rule matched %d constructs, fewer than the %d confirmed by hand", counts[rule], r.Floors[rule])})
+		}
+	}
 	b, _ := json.Marshal(r.Obs)
 	fmt.Println(string(b))
 }
